@@ -55,14 +55,21 @@ public:
     lambda_(dist.lambda_),
     tp_(dist.tp_),
     cond_(dist.cond_)
-  {}
+  {
+    // a truncation point constrained by the source's domain (see restrictToConstraint) is bound to the copy's own domain
+    if (dist.parameter("tp").getConstraint() == dist.intMinMax_)
+      getParameter_("tp").setConstraint(intMinMax_);
+  }
 
   TruncatedExponentialDiscreteDistribution& operator=(const TruncatedExponentialDiscreteDistribution& dist)
   {
+    bool tpOnDomain = (dist.parameter("tp").getConstraint() == dist.intMinMax_);
     AbstractDiscreteDistribution::operator=(dist);
     lambda_ = dist.lambda_;
     tp_ = dist.tp_;
     cond_ = dist.cond_;
+    if (tpOnDomain)
+      getParameter_("tp").setConstraint(intMinMax_);
     return *this;
   }
 
